@@ -681,7 +681,12 @@ class Executor:
             fr.visits[bbname] = n
             bound = self.cfg.loop_bounds.get((fn.short(), bbname), self.cfg.unroll)
             if n > bound + 1:
-                return self.ret_from(st, "cut", None, cut=bbname)
+                if (fn.short(), bbname) in getattr(self.cfg, "exit_heads", ()) and blk.term and blk.term[0] == "call" \
+                        and blk.term[2].endswith("::next"):
+                    # bounded unwinding with the loop-exit assumption: the iterator is exhausted on this visit
+                    fr.force_none = True
+                else:
+                    return self.ret_from(st, "cut", None, cut=bbname)
         for stt in blk.stmts:
             if stt[0] == "assign":
                 dest = stt[1]
@@ -736,6 +741,25 @@ class Executor:
             v = self.operand(st, fr, t[1])
             return self.do_switch(st, v, t[2])
         if k == "call":
+            if getattr(fr, "force_none", False):
+                fr.force_none = False
+                outs = []
+                for s2, nxt in self.do_call(st, fr, t):
+                    if nxt is None or s2.frames[-1].fn is not fn:
+                        raise Unsupported("loop-exit assumption on an inlined or diverging next()")
+                    o, p_ = self.resolve(s2, s2.frames[-1], t[1])
+                    v = self.read(s2, o, p_, None)
+                    if not isinstance(v, Enum):
+                        raise Unsupported("loop-exit assumption: next() did not give an Option")
+                    if isinstance(v.disc, int):
+                        if v.disc == 0:
+                            outs.append((s2, nxt))
+                        continue
+                    c = v.disc == 0
+                    if self.feasible(s2, c):
+                        s2.pc.append(c)
+                        outs.append((s2, nxt))
+                return outs
             return self.do_call(st, fr, t)
         raise Unsupported("terminator " + k)
 
@@ -1324,6 +1348,34 @@ def _opt_take(ex, st, fr, callee, args, dty):
     return [(st, v)]
 
 
+def _opt_get_or_insert(ex, st, fr, callee, args, dty):
+    """Option::get_or_insert(&mut self, v): None => Some(v); Some(_) => unchanged (v dropped)"""
+    a = args[0]
+    if isinstance(a, Sym) and re.match(r"^(&|\*)", a.ty or ""):
+        a = Ref(ex.pointee(a))
+    if not isinstance(a, Ref):
+        return None
+    v = ex.read(st, a.obj, a.path, None)
+    if not isinstance(v, Enum):
+        return None
+    outs = []
+    cases = [(0, None), (1, None)]
+    if isinstance(v.disc, int):
+        cases = [(v.disc, None)]
+    for i, (d, _) in enumerate(cases):
+        c = None if isinstance(v.disc, int) else (v.disc == d)
+        if c is not None and not ex.feasible(st, c):
+            continue
+        s2, a2, val2 = (st, a, args[1]) if i == len(cases) - 1 else copy.deepcopy((st, a, args[1]))
+        if c is not None:
+            s2.pc.append(c)
+        if d == 0:
+            ex.write(s2, a2.obj, a2.path, _mk(ex, v.ty, "Option", "Some", [val2]))
+        ex.event(s2, "get_or_insert", "was_none" if d == 0 else "was_some", [a2, val2])
+        outs.append((s2, ex.fresh(dty, "r%d" % len(s2.trace))))
+    return outs
+
+
 def _mem_take(ex, st, fr, callee, args, dty):
     a = args[0]
     if isinstance(a, Sym) and re.match(r"^(&|\*)", a.ty or ""):
@@ -1504,6 +1556,7 @@ HANDLERS = [
     (r"^<.* as Try>::branch$", _try_branch),
     (r"^<.* as FromResidual<.*>>::from_residual$", _from_residual),
     (r"^Option::<.*>::take$", _opt_take),
+    (r"^Option::<.*>::get_or_insert$", _opt_get_or_insert),
     (r"^(Option|Result|std::result::Result|std::option::Option)::<.*>::(is_some|is_none|is_ok|is_err|ok|err|unwrap|expect|unwrap_or|unwrap_or_default|ok_or|or|as_ref|as_mut|map|map_err|and_then|unwrap_or_else|map_or|or_else|is_some_and|inspect|filter)(::<.*>)?$", _opt_res_simple),
     (r"^std::mem::take::<.*>$", _mem_take),
     (r"^std::mem::replace::<.*>$", _mem_replace),
